@@ -127,24 +127,21 @@ type sweepLayer struct {
 // at no cost), so that chains of two (thorough: three) search operators - embeddedDocument / compound / facet operator
 // around every other operator - meet every leaf class.
 func rootedLayers(thorough bool, fl []Flags) []sweepLayer {
-	// quick: 2 operators below $search, 1 below $searchMeta, reduced leaf alphabet; thorough: 2 below both with the full
-	// leaf alphabet (three operators deep below a stage turned out to cost hours for little: the aliasing defect it was
-	// built for needs two)
+	// quick: 2 operators below $search, 1 below $searchMeta; thorough: 2 below both; reduced leaf alphabet (three operators
+	// deep, or the full leaf alphabet, cost hours for little: the aliasing defect the layer was built for needs two)
 	var ls []sweepLayer
 	for _, r := range []string{"$search", "$searchMeta"} {
 		bb, leaves := 2, 1
 		if r == "$searchMeta" && !thorough {
 			bb = 1
 		}
-		if thorough {
-			leaves = 0
-		}
+		_ = leaves
 		ls = append(ls, sweepLayer{"rooted:" + r, GenOpts{OneGate: true, LeafSet: leaves, Slots: []int{4}, RootStage: r}, bb, fl})
 	}
 	return ls
 }
 
-const rootedRule = "; search stages as the root: every derivation with <=2 non-default search operators below $search and <=1 (thorough 2) below $searchMeta (the deviation budget starts below the stage), reduced (thorough: full) leaf alphabet incl. $date / $oid / $binary"
+const rootedRule = "; search stages as the root: every derivation with <=2 non-default search operators below $search and <=1 (thorough 2) below $searchMeta (the deviation budget starts below the stage), reduced leaf alphabet incl. $date / $oid / $binary"
 
 type sweepCase struct {
 	C     *Case
